@@ -589,6 +589,9 @@ func RunCheck(opts *CheckOpts) int {
 		if len(c.Forbids) > 0 {
 			g.Obls = append(g.Obls, forbidsObligations(g, fn, k, c)...)
 		}
+		if c.NoReentrantLock {
+			g.Obls = append(g.Obls, reentrantLockObligations(prog, g, fn, k)...)
+		}
 		if c.HasErrorsFrom {
 			g.Obls = append(g.Obls, errorsFromObligations(prog, g, fn, k, c)...)
 		}
@@ -2134,6 +2137,119 @@ func forbidsObligations(g *Gen, fn *ssa.Function, key string, c *Contract) []*Ob
 	}
 	if n == 0 {
 		out = append(out, &Obligation{Name: ShortKey(key) + "#forbids", Kind: "forbids", Fn: key, Clause: "forbids " + strings.Join(c.Forbids, ", "), Reach: True, Goal: True, Gen: g})
+	}
+	return out
+}
+
+
+func syncCall(call *ssa.CallCommon, names ...string) bool {
+	f := call.StaticCallee()
+	if f == nil || f.Pkg == nil || f.Pkg.Pkg.Path() != "sync" {
+		return false
+	}
+	for _, nm := range names {
+		if f.Name() == nm {
+			return true
+		}
+	}
+	return false
+}
+
+// reachedFromReceiver: v is the receiver parameter of fn or the address of a field of it.
+func reachedFromReceiver(fn *ssa.Function, v ssa.Value) bool {
+	if len(fn.Params) == 0 || fn.Signature.Recv() == nil {
+		return false
+	}
+	for i := 0; i < 6; i++ {
+		switch x := v.(type) {
+		case *ssa.FieldAddr:
+			v = x.X
+			continue
+		case *ssa.Parameter:
+			return x == fn.Params[0]
+		}
+		break
+	}
+	return false
+}
+
+// locksOwnMutex: the method calls Lock on a sync mutex reached from its own receiver.
+func locksOwnMutex(fn *ssa.Function) bool {
+	for _, b := range fn.Blocks {
+		for _, in := range b.Instrs {
+			if c, ok := in.(*ssa.Call); ok && syncCall(&c.Call, "Lock") && len(c.Call.Args) > 0 && reachedFromReceiver(fn, c.Call.Args[0]) {
+				return true
+			}
+		}
+	}
+	return false
+}
+
+// reentrantLockObligations: structural obligation of `noreentrantlock`. A may-analysis of
+// "the mutex of the receiver is held" (Lock on a mutex reached from the receiver sets it;
+// Unlock clears it unless the Unlock is deferred); every static call, made while it may be
+// held, of a method that locks its own receiver's mutex, on the same receiver, fails it.
+func reentrantLockObligations(prog *Program, g *Gen, fn *ssa.Function, key string) []*Obligation {
+	var out []*Obligation
+	if fn.Signature.Recv() == nil || len(fn.Params) == 0 {
+		return out
+	}
+	deferredUnlock := false
+	for _, b := range fn.Blocks {
+		for _, in := range b.Instrs {
+			if d, ok := in.(*ssa.Defer); ok && syncCall(&d.Call, "Unlock") {
+				deferredUnlock = true
+			}
+		}
+	}
+	held := map[*ssa.BasicBlock]bool{}
+	step := func(b *ssa.BasicBlock, h bool, visit func(in ssa.Instruction, held bool)) bool {
+		for _, in := range b.Instrs {
+			if visit != nil {
+				visit(in, h)
+			}
+			if c, ok := in.(*ssa.Call); ok {
+				if syncCall(&c.Call, "Lock") && len(c.Call.Args) > 0 && reachedFromReceiver(fn, c.Call.Args[0]) {
+					h = true
+				} else if syncCall(&c.Call, "Unlock") && !deferredUnlock {
+					h = false
+				}
+			}
+		}
+		return h
+	}
+	for changed := true; changed; {
+		changed = false
+		for _, b := range fn.Blocks {
+			if step(b, held[b], nil) {
+				for _, sc := range b.Succs {
+					if !held[sc] {
+						held[sc] = true
+						changed = true
+					}
+				}
+			}
+		}
+	}
+	n := 0
+	for _, b := range fn.Blocks {
+		step(b, held[b], func(in ssa.Instruction, h bool) {
+			c, ok := in.(*ssa.Call)
+			if !ok || !h {
+				return
+			}
+			callee := c.Call.StaticCallee()
+			if callee == nil || len(c.Call.Args) == 0 || !locksOwnMutex(callee) {
+				return
+			}
+			if p, ok := c.Call.Args[0].(*ssa.Parameter); ok && p == fn.Params[0] {
+				out = append(out, &Obligation{Name: fmt.Sprintf("%s#noreentrantlock.%d", ShortKey(key), n), Kind: "noreentrantlock", Fn: key, Clause: "noreentrantlock: call of " + callee.Name() + ", which takes the receiver's mutex, while the mutex may be held", Pos: g.pos(in.Pos()), Reach: True, Goal: False, Gen: g})
+				n++
+			}
+		})
+	}
+	if n == 0 {
+		out = append(out, &Obligation{Name: ShortKey(key) + "#noreentrantlock", Kind: "noreentrantlock", Fn: key, Clause: "noreentrantlock: no call of a locking method of the receiver while its mutex may be held", Reach: True, Goal: True, Gen: g})
 	}
 	return out
 }
